@@ -98,6 +98,9 @@ def m_expect_panic(ip, callee, args): ip.expect.append((val_of_strlike(args[0]),
 def m_spawn(ip, c, a): return Agg('Handle', None, [Cell(ip.sched.spawn(a[0]))])
 def m_join(ip, c, a): return ip.sched.join(a[0].fields[0].v)
 def m_yield(ip, c, a): ip.sched.switch(); return UNIT
+def m_current_tid(ip, c, a): return ip.sched.me()
+def m_block_on_lock(ip, c, a):
+    ip.sched.block_switch(); return UNIT
 
 def opt_some(v): return Agg('Option', 'Some', [Cell(v)])
 OPT_NONE = lambda: Agg('Option', 'None', [])
@@ -367,7 +370,7 @@ def install(ip):
         M['vsym::any_' + ty] = m_any_int(ty)
     M['vsym::any_bool'] = m_any_bool; M['vsym::any_str'] = m_any_str; M['vsym::choice'] = m_choice; M['vsym::param'] = m_param
     M['vsym::assume'] = m_assume; M['vsym::check'] = m_check; M['vsym::cover'] = m_cover; M['vsym::tag'] = m_tag; M['vsym::tag_i'] = m_tag_i
-    M['vsym::expect_panic'] = m_expect_panic; M['vsym::spawn'] = m_spawn; M['vsym::join'] = m_join; M['vsym::yield_now'] = m_yield
+    M['vsym::expect_panic'] = m_expect_panic; M['vsym::spawn'] = m_spawn; M['vsym::join'] = m_join; M['vsym::yield_now'] = m_yield; M['vsym::current_tid'] = m_current_tid; M['vsym::block_on_lock'] = m_block_on_lock
     for k in [k for k in M if k.startswith('vsym::')]: M[k[6:]] = M[k]
     M['<String as From<&str>>::from'] = m_string_from
     M['<String as Deref>::deref'] = m_deref_string
@@ -409,7 +412,9 @@ def m_cell_set(ip, c, a):
     while isinstance(u, Ref): u = u.cell.v
     u.fields[0].v = a[1]; return UNIT
 def m_vec_deref(ip, c, a): return a[0]
-def m_slice_iter(ip, c, a): return Agg('SliceIter', None, [Cell(vec_of(a[0]).fields[0].v), Cell(0)])
+def m_slice_iter(ip, c, a):
+    v = vec_of(a[0])
+    return Agg('SliceIter', None, [Cell(v if isinstance(v, list) else v.fields[0].v), Cell(0)])
 def m_slice_iter_next(ip, c, a):
     it = a[0].cell.v; lst = it.fields[0].v; i = it.fields[1].v
     if i >= len(lst): return OPT_NONE()
